@@ -1,4 +1,4 @@
-import StraxModel.Lemmas.Mailbox
+import StraxModel.Props.C05
 /-
   C13 — production is limited by demand and buffer capacity: the mailbox-level theorems.
   (Pipeline-level statements — bound on the emissions after the consumer stops — live in Props/C13Net.lean.)
@@ -14,10 +14,8 @@ open Strax Strax.Mailbox
 /-- capacity, restated for pipeline mailboxes: `ThreadedMailboxProcessor` overwrites `max_messages` on every
 mailbox, so a lazy mailbox inside a pipeline has a finite capacity too and never buffers more -/
 theorem capacity_inv (c : Config) (s : Sys) (h : Reachable c s) (k : Nat) (hc : c.cap = some k) :
-    s.mb.heap.length ≤ k := by
-  have hs := Static.reachable h
-  have : s.mb.cap = c.cap := congrArg (fun x => x.1) hs
-  exact (Inv.reachable h).mb.capOk k (by rw [this, hc])
+    s.mb.heap.length ≤ k :=
+  Strax.C05.capacity_inv c s h k hc     -- one theorem: this is C05's, restated under C13's name for its evidence
 
 /-- **the lazy gate** (repaired rule): in every reachable state of a lazy mailbox in which the sender is
 about to advance the source (`spc = fetch`: its next action is `next(iterable)`) and the mailbox has not been
@@ -65,22 +63,6 @@ def d6Cfg : Config :=
 passes the gate again: `waiting_for = [1, None]`, heap `{0, 1}`, and `1 <= lowest = 0` is false -/
 def d6Sched : List ThreadId :=
   [.sender, .reader 0, .sender, .sender, .sender, .reader 0, .reader 0, .sender, .sender, .sender, .sender]
-
-/-- decidable form of `GateOk` -/
-def gateOkB (mb : MB) : Bool :=
-  mb.subs.any fun sub => sub.canDrive && (match sub.waitingFor with
-    | some x => !hasNum mb.heap x
-    | none => false)
-
-theorem gateOkB_iff (mb : MB) : gateOkB mb = true ↔ GateOk mb := by
-  simp only [gateOkB, GateOk, List.any_eq_true, Bool.and_eq_true]
-  constructor
-  · rintro ⟨sub, hm, hd, hw⟩
-    cases hx : sub.waitingFor with
-    | none => simp [hx] at hw
-    | some x => exact ⟨sub, hm, hd, x, hx, by simpa [hx] using hw⟩
-  · rintro ⟨sub, hm, hd, x, hx, hn⟩
-    exact ⟨sub, hm, hd, by simp [hx, hn]⟩
 
 /-- with the rule as found, `lazy_gate` is false: a reachable state (by the schedule above) of a lazy,
 un-killed mailbox whose sender is about to advance the source although the only driving subscriber waits
